@@ -379,7 +379,7 @@ pub fn run(ctx: &Ctx) -> Report {
     let d1 = depth1(&leaves);
     let thorough = !ctx.quick();
     let seed = ctx.seed;
-    let random_budget = ctx.budget(300_000, 2_000_000);
+    let random_budget = ctx.budget(1_500_000, 20_000_000);
     let d1_ref = &d1;
     let leaves_ref = &leaves;
     let mut rep = parallel(ctx.threads, |shard, n| {
